@@ -11,6 +11,7 @@ import (
 
 	"github.com/osteele/liquid"
 	"github.com/osteele/liquid/render"
+	"github.com/osteele/liquid/values"
 	"github.com/osteele/liquid/verifhook"
 	yaml "gopkg.in/yaml.v2"
 
@@ -25,12 +26,12 @@ func init() {
 		Race:          true,
 		Shards:        4,
 		NoHangMonitor: true,
-		Rule: "one configured engine per round; templates = one per registered standard tag and per registered standard filter (enumerated from the engine's tables at run time) plus generated programs; in every round N in {2,4,8,16,32} goroutines render THE SAME parsed *Template objects and parse the same sources concurrently, sharing one set of binding values (incl. Drops by value and by pointer, typed slices, maps, IterationKeyedMap, MapSlice), under GOMAXPROCS in {1,2,4,16}, with schedule perturbation through verifhook.Yield and through yielding callbacks (Drop.ToLiquid, io.Writer, a registered tag); built with -race. Each operation is recorded at the client boundary (goroutine, kind, template, call/return timestamp from one monotonic clock, result hash). Oracle: no race report whose stack contains the repository; every concurrent result equals the single-threaded result computed before and after. Interleaving coverage = distinct overlapping (template_i, template_j) pairs, including a template overlapping itself. Non-trivial = an operation that overlapped another operation in time; distinct = distinct overlapping pairs.",
+		Rule: "one configured engine per round; templates = one per registered standard tag and per registered standard filter (enumerated from the engine's tables at run time) plus generated programs; in every round N in {2,4,8,16,32} goroutines render THE SAME parsed *Template objects and parse the same sources concurrently, sharing one set of binding values (incl. Drops by value and by pointer, Drops pre-wrapped with values.ValueOf that are still unresolved when each burst starts, typed slices, maps, IterationKeyedMap, MapSlice), under GOMAXPROCS in {1,2,4,16}, with schedule perturbation through verifhook.Yield and through yielding callbacks (Drop.ToLiquid, io.Writer, a registered tag); built with -race. Each operation is recorded at the client boundary (goroutine, kind, template, call/return timestamp from one monotonic clock, result hash). Oracle: no race report whose stack contains the repository; every concurrent result equals the single-threaded result computed before and after. Interleaving coverage = distinct overlapping (template_i, template_j) pairs, including a template overlapping itself. Non-trivial = an operation that overlapped another operation in time; distinct = distinct overlapping pairs.",
 		Exhaustive: func(string) bool { return false },
 		Assumptions: []string{
 			"the sequential specification of every operation is a pure function of its arguments (what C02/C03 establish), so a history is linearizable iff every operation returned the sequential value: an O(n) check, no search",
 			"the static 'for all schedules' clause of the quantifier is outside runtime monitoring and is not attempted; every standard tag and filter closure is instead executed by several goroutines at once under the race detector",
-			"custom tags, filters and Drops a user registers are not covered",
+			"application tags and blocks are covered as far as the render.Context methods they call go (a fixed set registered by the harness); arbitrary user code inside tags, filters and Drops is not",
 		},
 		MinEvents: map[string]int64{"concurrent_operations": 20000, "self_overlapping_templates": 20, "fixed_template_seen:tag include": 1},
 		Post:      c04Post,
@@ -75,6 +76,22 @@ var c04TagTemplates = map[string]string{
 	"break":    "{% for x in arr %}{{ x }}{% if forloop.index == 2 %}{% break %}{% endif %}{% endfor %}",
 	"continue": "{% for x in arr %}{% if forloop.first %}{% continue %}{% endif %}{{ x }}{% endfor %}",
 	"cycle":    "{% for x in arr %}{% cycle 'a', 'b', 'c' %}{% cycle 'g': '1', '2' %}{% endfor %}",
+	// application tags and blocks written against render.Context (see custom.go)
+	"xecho":      "{% xecho pre-{{ n }}-{{ s | upcase }}-post %}",
+	"xeval":      "{% xeval n | plus: 1 %}{% xeval arr | join: ',' %}",
+	"xset":       "{% xset v = arr | first %}{{ v }}{% xset s = 'shadow' %}{{ s }}",
+	"xget":       "{% xget n %}{% xget nosuch %}",
+	"xinfo":      "{% xinfo a b %}",
+	"xfile":      "{% xfile inc.html %}{% xfile {{ 'inc2' | append: '.html' }} %}",
+	"xfail":      "a{% xfail now %}b",
+	"xwrapfail":  "{% xwrapfail %}",
+	"xplainfail": "{% for i in (1..2) %}{% xplainfail %}{% endfor %}",
+	"xwrap":      "{% xwrap {{ n }} %}{% for x in arr %}{{ x }}{% endfor %}{% endxwrap %}",
+	"xtwice":     "{% xtwice %}{% cycle 'a', 'b' %}{{ s }}{% endxtwice %}",
+	"xwhen":      "{% xwhen n > 0 %}yes {{ n }}{% endxwhen %}{% xwhen nothing %}no{% endxwhen %}",
+	"xbfile":     "{% xbfile inc3.html %}ignored{% endxbfile %}",
+	"xbfail":     "{% xbfail x %}{% endxbfail %}",
+	"xbplain":    "{% xbplain %}{{ n }}{% endxbplain %}",
 	"include":  "{% include 'inc.html' %}|{% for i in (1..2) %}{% include 'inc2.html' %}{% endfor %}{% include 'inc3.html' %}",
 }
 
@@ -137,6 +154,7 @@ func c04Round(c *core.Ctx, round int) {
 	mkEngine := func() *liquid.Engine {
 		e := liquid.NewEngine()
 		e.RegisterTag("vyield", func(render.Context) (string, error) { runtime.Gosched(); return "", nil })
+		RegisterCustom(e)
 		for _, inc := range []string{"c04/inc.html", "c04/inc2.html", "c04/inc3.html"} {
 			if _, err := e.ParseTemplateAndCache([]byte("[inc "+inc+" {{ n }}{% for q in (1..2) %}{% cycle 'x', 'y' %}{% endfor %}]"), inc, 1); err != nil {
 				panic(err)
@@ -203,6 +221,16 @@ func c04Round(c *core.Ctx, round int) {
 	b["ordered"] = yaml.MapSlice{{Key: "a", Value: 1}, {Key: "b", Value: 2}}
 	b["tm"] = time.Date(2020, 2, 3, 4, 5, 6, 0, time.UTC)
 	b["nothing"] = nil
+	// Drops already wrapped as values.Value and shared by all renders (the library's own TestDrop_Resolve_race does
+	// this): replaced by fresh, unresolved wrappers before every concurrent burst, so that the first resolution
+	// itself happens under contention
+	freshWrapped := func() {
+		b["wdrop"] = values.ValueOf(&yieldDrop{v: []any{1, 2, 3}})
+		b["wdrop2"] = values.ValueOf(gen.DropV{X: map[string]any{"k": "v", "l": []any{1, 2}}})
+		b["wdrop3"] = values.ValueOf(&yieldDrop{v: "text"})
+	}
+	freshWrapped()
+	srcs = append(srcs, "{{ wdrop | join: ',' }}{% for x in wdrop %}{{ x }}{% endfor %}{{ wdrop.first }}{{ wdrop.size }}", "{{ wdrop2.k }}{{ wdrop2.l | join: '+' }}{{ wdrop3 | upcase }}{{ wdrop3 }}{% if wdrop contains 2 %}c{% endif %}{% for kv in wdrop2 %}{{ kv[0] }}{% endfor %}")
 	srcs = append(srcs, "{{ ydrop | join: ',' }}{% for x in ydrop %}{{ x }}{% endfor %}{{ ydrop.first }}", "{% for k in keyed %}{{ k }}{% endfor %}{{ ordered.a }}{% for kv in ordered %}{{ kv[1] }}{% endfor %}")
 
 	if !c.Begin(fmt.Sprintf("round %d: %d templates", round, len(srcs))) {
@@ -243,6 +271,7 @@ func c04Round(c *core.Ctx, round int) {
 	for _, cfg := range configs {
 		for rep := 0; rep < reps; rep++ {
 			old := runtime.GOMAXPROCS(cfg.procs)
+			freshWrapped() // no goroutine of the previous burst is alive (wg.Wait), none of this one has started
 			verifhook.SetYield([]uint32{0, 64, 512}[(rep+cfg.n)%3])
 			var wg sync.WaitGroup
 			start := make(chan struct{})
